@@ -117,7 +117,7 @@ def run(res, replay=None):
         s3 = {'n_items': [['a', 6]], 'model': {'kind': 'kingman'}, 'pop_sizes': {'a': {'0.0': 1.0, '0.5': 2.0}}}
         cases.append({'spec': s3, 'cache': True, 'parallelize': True, 'parallel_map': True, 'ops': [
             A('sfs.cov'), A('sfs.mean'), A('fsfs.cov'), A('sfs.corr'), A('sfs.var')]})
-    outs = C.run_impl_parallel('histories.py', [{'cases': [c]} for c in cases], timeout=2400)
+    outs = C.run_impl_parallel('histories.py', [{'cases': [c]} for c in cases], timeout=(300 if res.tier == 'quick' else 2400))
     bodies, keep = [], []
     for i, (c, o) in enumerate(zip(cases, outs)):
         r = o['results'][0]
